@@ -269,7 +269,10 @@ def gen_C03(rng, tier):
         vb = [v + 0.125 for v in distinct_vals(rng, prod(sb), 'pos')]
         if rng.random() < 0.3:
             va = [rng.choice([0.0, -1.0, 1e100, 1e-100, 2.0]) for _ in va]
-        ta, tb = p.tensor(sa, va), p.tensor(sb, vb)
+        # (an operand may be the result of an earlier operation — a reducer's output, a squeezed, sliced, reshaped or
+        # transposed tensor — instead of a constructor's)
+        ta = derived_tensor(p, rng, sa, va) if rng.random() < 0.3 else p.tensor(sa, va)
+        tb = derived_tensor(p, rng, sb, vb) if rng.random() < 0.3 else p.tensor(sb, vb)
         ea = p.bind('broadcast %s %s' % (ta, ints(bs)))
         eb = p.bind('broadcast %s %s' % (tb, ints(bs)))
         for o in arith:
@@ -439,6 +442,26 @@ def gen_C05(rng, tier):
             for r in red:
                 o = p.bind('%salong %s %d' % (r, t, d)); p.add('obs %s' % o)
         p.tag('large')
+        progs.append(p)
+    # blocks whose partial sums cancel catastrophically (1e16, small, -1e16, ...): the result of a summing reducer is the one
+    # the defined left-to-right order gives; any other association or order of partial results is off by whole units
+    for i in range(30 if tier == 'quick' else 300):
+        p = Prog('c05_cancel%d' % i)
+        rows, cols = rng.randint(3, 9), rng.randint(1, 6)
+        big = rng.choice([1e16, 3e15, 1e17])
+        vals = []
+        for r in range(rows):
+            base = [big, 0.0, -big][r % 3] if rng.random() < 0.85 else 0.0
+            for c in range(cols):
+                vals.append(base / cols + float(rng.randint(1, 5)) if c else base + float(rng.randint(1, 5)))
+        shape = [rows, cols] if rng.random() < 0.7 else [rows, cols, 1]
+        t = p.tensor(shape, vals)
+        for r in ('sum', 'avg', 'mean', 'var', 'std'):
+            p.add('%s %s' % (r, t))
+        for d in range(len(shape)):
+            for r in ('sum', 'avg', 'mean'):
+                o = p.bind('%salong %s %d' % (r, t, d)); p.add('obs %s' % o)
+        p.tag('cancelling-blocks')
         progs.append(p)
     # reducers on tensors DERIVED from a tensor that has (or has not yet) been reduced itself: every shape operation,
     # then every reducer on the result, then the source again — a statistic is a function of the elements the tensor holds
